@@ -134,10 +134,20 @@ func (p *c16) structRT(rec *core.Recorder, r *core.Rand, tier string) {
 func (p *c16) pipeline(rec *core.Recorder, r *core.Rand, viaLoader bool) {
 	ts := GenTSet(r.Fork(), "K")
 	srcs := (&mt.Printer{R: r.Fork()}).SourceSet(ts.Set)
-	if r.P(1, 5) {
+	ctxOf := func(k int) map[string]interface{} { return ts.GoCtxVariant(k) }
+	wildEntry := ""
+	if r.P(1, 6) {
+		// an entry of the independently written corpus with its own context
+		if we, ok := wildPick(r); ok {
+			srcs, wildEntry = we.Srcs(), we.Render
+			ctxOf = func(k int) map[string]interface{} { return we.Ctx(core.NewRand("C16wild", uint64(k), 0)) }
+			rec.Count("wild-entries", 1)
+		}
+	}
+	if wildEntry == "" && r.P(1, 5) {
 		srcs["plain"] = strings.Repeat("<p>compiled filler paragraph</p>\n", 150+r.Intn(2000)) + srcs["plain"]
 	}
-	if r.P(1, 6) {
+	if wildEntry == "" && r.P(1, 6) {
 		srcs["plain"] += "\x00\xff\xfe raw bytes \xc3"
 	}
 	class := "pipeline"
@@ -156,6 +166,9 @@ func (p *c16) pipeline(rec *core.Recorder, r *core.Rand, viaLoader bool) {
 		}
 	}
 	entry := ts.Entries[r.Intn(len(ts.Entries))]
+	if wildEntry != "" {
+		entry = wildEntry
+	}
 	total := 0
 	for _, s := range srcs {
 		total += len(s)
@@ -193,7 +206,7 @@ func (p *c16) pipeline(rec *core.Recorder, r *core.Rand, viaLoader bool) {
 		}
 		dir = d
 		defer os.RemoveAll(dir)
-		for _, n := range twins {
+		for _, n := range append(append([]string{}, twins...), sortedKeys(srcs)...) {
 			// the loader does not create sub-directories for names with a slash
 			if i := strings.LastIndex(n, "/"); i >= 0 {
 				os.MkdirAll(filepath.Join(dir, n[:i]), 0o755)
@@ -201,8 +214,28 @@ func (p *c16) pipeline(rec *core.Recorder, r *core.Rand, viaLoader bool) {
 		}
 	}
 	failed := false
+	aliases := map[string]string{}
+	if viaLoader {
+		// templates that sit on the engine under a name they do not carry themselves (parsed, then registered)
+		for i, n := range sortedKeys(srcs) {
+			if i%3 == 0 && !strings.Contains(srcs[n], "extends") && len(srcs[n]) < 3000 {
+				if t, err := a.ParseTemplate(srcs[n]); err == nil {
+					alias := "alias_of_" + strings.ReplaceAll(n, "/", "_")
+					a.RegisterTemplate(alias, t)
+					aliases[alias] = n
+				}
+			}
+		}
+	}
 	panicked, site, val, stack := core.Guard(func() {
 		cl := twig.NewCompiledLoader(dir)
+		for _, alias := range sortedKeys(aliases) {
+			if err := cl.SaveCompiled(a, alias); err != nil {
+				rec.Violate("compile", "savecompiled-failed", fmt.Sprintf("SaveCompiled(%q) failed: %v", alias, err), cs, "")
+				failed = true
+				return
+			}
+		}
 		for _, n := range sortedKeys(srcs) {
 			if viaLoader {
 				if err := cl.SaveCompiled(a, n); err != nil {
@@ -235,7 +268,7 @@ func (p *c16) pipeline(rec *core.Recorder, r *core.Rand, viaLoader bool) {
 		return
 	}
 	for k := 0; k < 3; k++ {
-		ctx := ts.GoCtxVariant(k)
+		ctx := ctxOf(k)
 		// engine C: the source
 		rc := renderFresh(srcs, entry, ctx, nil)
 		// engine B: the compiled form
@@ -272,6 +305,20 @@ func (p *c16) pipeline(rec *core.Recorder, r *core.Rand, viaLoader bool) {
 			rec.Violate("compiled-vs-source", core.SigHash("c16", canonSrcs(srcs)+entry),
 				fmt.Sprintf("template %q loaded from its compiled form renders %s (err=%v), its source renders %s (err=%v)", entry, core.Q(core.Trunc(rb.Out, 200)), rb.Err, core.Q(core.Trunc(rc.Out, 200)), rc.Err), cs, "")
 			return
+		}
+	}
+	if len(aliases) > 0 {
+		for _, alias := range sortedKeys(aliases) {
+			rec.Count("alias-read-back", 1)
+			var got string
+			var err error
+			core.Guard(func() { got, err = twig.NewCompiledLoader(dir).Load(alias) })
+			if err != nil || got != srcs[aliases[alias]] {
+				rec.Violate("compiled-loader-names", "loader-read-back-differs-alias",
+					fmt.Sprintf("the file written by SaveCompiled for %q (a template registered under a name it does not carry) is not read back: Load gave %s (err=%v)", alias, core.Q(core.Trunc(got, 100)), err),
+					map[string]any{"alias": alias, "source": core.Trunc(srcs[aliases[alias]], 500)}, "")
+				return
+			}
 		}
 	}
 	if len(twins) > 0 {
